@@ -30,7 +30,7 @@ func ruleCloseTable(c *Ctx, r *Report) {
 	isClosedAtom := func(val bool) atomAssume { return atomAssume{mCall("(*dtls.Conn).isConnectionClosed"), vBool(val)} }
 	// first close: the signal precedes everything that can block
 	w := &Walk{Fn: fn, Assume: assumeAll(isClosedAtom(false))}
-	w.Visit = func(in ssa.Instruction, _ map[*ssa.Phi]Val) bool { return in != ssa.Instruction(sig[0]) }
+	w.Visit = func(in ssa.Instruction, _ Env) bool { return in != ssa.Instruction(sig[0]) }
 	w.FromEntry()
 	r.Check(!w.Reached[notif[0]] && !w.Reached[tr[0]], rule, short(fn)+":signal-first", c.ipos(sig[0]), "on the first close the closed signal is raised before close_notify is written and before the transport is closed", "close() writes close_notify (which needs the write lock) or closes the transport before raising the closed signal: a Write blocked in the transport is never cancelled and Close deadlocks on the write lock")
 	lf := c.lockFactsOf(fn)
@@ -221,7 +221,7 @@ func ruleBlockingDiscipline(c *Ctx, r *Report) {
 			return ok && ex.Tuple == ssa.Value(sel) && ex.Index == 0
 		}, vInt(int64(recvIdx))}
 		w := &Walk{Fn: fn, Assume: assumeAll(okParse, idxAtom)}
-		w.Visit = func(in ssa.Instruction, _ map[*ssa.Phi]Val) bool { return !isClose[in] }
+		w.Visit = func(in ssa.Instruction, _ Env) bool { return !isClose[in] }
 		w.After(sel)
 		leak := ""
 		for _, ro := range w.Returns {
